@@ -194,6 +194,10 @@ func runStoreHist(op M) any {
 
 // ChildMain serves one request read from stdin and writes the result to stdout.
 func ChildMain() {
+	// the result goes to the descriptor the parent reads; whatever the library prints goes to stderr
+	protocol := os.Stdout
+	os.Stdout = os.Stderr
+	defer func() { os.Stdout = protocol }()
 	// a child whose parent is gone (a check that was interrupted) has nobody to report to
 	go func() {
 		parent := os.Getppid()
@@ -265,7 +269,7 @@ func ChildMain() {
 		res = "unknown-op"
 	}
 	b, _ := json.Marshal(res)
-	os.Stdout.Write(append(b, '\n'))
+	protocol.Write(append(b, '\n'))
 }
 
 func runChild(req M, pre ...string) (res any, exit string) {
@@ -634,6 +638,15 @@ func crashExplore(op M) any {
 		}
 		if oldDoc != nil {
 			_ = fs.Store(oldDoc, nil)
+			if op["linked"] == true {
+				// the operator moved the entry to another volume and left a symbolic link in its place
+				p := entryPath(dir, id)
+				tgt := filepath.Join(root, "moved-"+filepath.Base(p))
+				_ = os.Remove(tgt)
+				if os.Rename(p, tgt) == nil {
+					_ = os.Symlink(tgt, p)
+				}
+			}
 		}
 	}
 	var violations, seq []any
@@ -777,6 +790,11 @@ func crashGen(g *G, tier string) []M {
 		case 2:
 			op["bodyOld"] = float64(40 + g.Int(30))
 			op["nc"] = true
+			if i%16 == 2 {
+				// instead: an overwrite of an entry that is a symbolic link to a file elsewhere
+				op["nc"] = false
+				op["linked"] = true
+			}
 		case 3:
 			op["nc"] = true // first-time store with no-clobber
 		case 4:
